@@ -131,8 +131,28 @@ DecOK(r) ==
                  /\ run.res \in {"ok", "err"}
                  /\ run.res = "ok" => Agrees(run, spec)        \* transparent whenever it succeeds
 
+(***************************************************************************)
+(* cenc / cdec: compact integers (C04)                                     *)
+(***************************************************************************)
+CEncOK(r) ==
+  /\ r.res = "ok"
+  /\ Len(r.v) = r.w
+  /\ r.out = CompactEnc(r.v)                 \* the unique shortest form
+  /\ r.clen = CompactLen(r.v)                \* advertised length
+  /\ r.clen = Len(r.out)
+  /\ r.uenc = r.out /\ r.to = r.out          \* borrowed-slice and streaming forms
+  /\ r.size = Len(r.out) /\ r.hint = Len(r.out)
+
+CDecOK(r) ==
+  LET d == CompactDec(r.w, r.inp, 0) IN
+  /\ r.res \in {"ok", "err"}
+  /\ (r.res = "ok") = d.ok
+  /\ d.ok => r.v = d.v /\ r.n = d.p
+
 RecOK(r) ==
   CASE r.k = "enc" -> EncOK(r)
+    [] r.k = "cenc" -> CEncOK(r)
+    [] r.k = "cdec" -> CDecOK(r)
     [] r.k = "rt"  -> RtOK(r)
     [] r.k = "dec" -> DecOK(r)
 
